@@ -153,9 +153,8 @@ def run(prop, tier, seed, replay=None):
         jobs.append({"kind": "model", "seed": rng.randrange(1 << 30), "behaviour": beh,
                      "cfg": HTTP_CONFIGS[bi % (nconf)], "tid": tid})
     # store API level: vdir, memory, tree, bare
-    nstore = 6 if quick else 50
-    for store in ("vdir", "mem", "tree", "bare"):
-        for k in range(nstore):
+    for store, nstore in (("vdir", 50), ("mem", 50), ("tree", 14), ("bare", 14)):
+        for k in range(nstore if quick else nstore * 10):
             tid += 1
             jobs.append({"kind": "store", "seed": rng.randrange(1 << 30), "store": store,
                          "profile": prop, "tid": tid})
